@@ -111,9 +111,10 @@ IsTwoWord(d) == d.ty \in {"input", "inputhist", "layer", "baselayer"}
 
 \* machine state: [pc (0-based), endIdx, op, ret, stack : Seq([op, idx]), fault]
 \* One call of Step = one iteration of `while current_index < bool_expr.len()`.
-\* `v` selects the evaluator variant: "code" = the code as it is; "fixed" = the code with the
-\* proposed one-line repair of the C10 finding "not-nested-last" (a popped `not` whose last operand was a nested list
-\* must negate, not clear, the result); the others are seeded design errors (DESIGN 3.4) that the
+\* `v` selects the evaluator variant: "code" = the code as it is (since the repair 7126954 of the C10 finding
+\* "not-nested-last" a popped `not` whose last operand was a nested list negates the result; "fixed" is a synonym kept
+\* for the thorough tier); "m_notclear" = the behaviour before the repair (the result is cleared, not negated),
+\* kept as a seeded design error; the others are further seeded design errors (DESIGN 3.4) that the
 \* check must reject: "m_le" (key-timing lt compares with <), "m_unwind" (final unwinding loop
 \* does not negate), "m_nojump" (`not` does not stop at the first true operand).
 \* One loop iteration (TLC note: the LETs live in this non-recursive operator; a LET inside the
@@ -129,7 +130,7 @@ StepX(ops, env, m, v) ==
         shortc == needPop /\ ( (m1.ret /\ m1.op \in {"or", "not"}) \/ (~m1.ret /\ m1.op = "and")
                                \/ m1.pc >= m1.endIdx )
     IN IF shortc
-       THEN [m1 EXCEPT !.ret = IF m1.op = "not" THEN (IF v = "fixed" THEN ~m1.ret ELSE FALSE) ELSE @,
+       THEN [m1 EXCEPT !.ret = IF m1.op = "not" THEN (IF v = "m_notclear" THEN FALSE ELSE ~m1.ret) ELSE @,
                        !.pc = m1.endIdx, !.steps = @ + 1]
        ELSE
          LET d == Decode(ops, m1.pc) IN
